@@ -46,7 +46,7 @@ func deliverToSubscription(
 ) (*ent.DeliveryCreate, error) {
 	if s.MessageFilter != nil && *s.MessageFilter != "" {
 		// TODO: cache parsed filters
-		if f, err := filter.Parser.ParseString(s.Name, *s.MessageFilter); err != nil {
+		if f, err := filter.Parse(s.Name, *s.MessageFilter); err != nil {
 			// filter errors should have been caught at subscription create/update.
 			// do not break delivery because one sub has a broken filter, assume the
 			// filter matches nothing and drop the message.
